@@ -66,7 +66,7 @@ def sizes(tier):
 # plan generation
 # ----------------------------------------------------------------------------------------------
 # ">f8" / ">f4": non-native byte order (arrays read from FITS files)
-DTYPES = {"img2d": ["float64", "float64", "float64", "float32", "int64", ">f8"], "img3d": ["float64", "float64", "float32", ">f4"], "img4d": ["float64"],
+DTYPES = {"img2d": ["float64", "float64", "float64", "float32", "int64", ">f8", "uint16", "uint8"], "img3d": ["float64", "float64", "float32", ">f4", "uint16", "int16", "uint8"], "img4d": ["float64"],
           "cplx2d": ["complex128", "complex128", "complex64"], "cplx3d": ["complex128"], "vec_inc": ["float64", "float64", ">f8"], "vec_pos": ["float64", "float64", "float32", ">f8"], "mask2d": ["float64", "int64"],
           "pos": ["float64"], "sep": ["float64"], "slopes3": ["float64"], "frames": ["float64", "float32"], "cov32": ["float32"], "r32": ["float32"]}
 
@@ -539,6 +539,10 @@ def execute(plan, keep_log=False):
                     res.violate("modified", "C20:argument-modified:%s:%s(list)" % (e["name"].split(".")[-1], ex),
                                 "%s changed the argument '%s' it was given (a list whose elements were replaced, or an array / dict of "
                                 "arrays built by the caller just before the call)" % (e["name"].split(".")[-1], ex), -1)
+                except registry.HiddenStateDetected as ex:
+                    out = ("raised", "HiddenStateDetected")
+                    res.violate("hidden-state", "C20:repeated-call-differs:%s:on-the-same-object" % e["name"].split(".")[-1],
+                                "%s(%s): %s" % (e["name"].split(".")[-1], S, ex), -1)
                 except Exception as ex:
                     out = ("raised", type(ex).__name__ + (":read-only" if "read-only" in str(ex) else ""))
         finally:
